@@ -187,7 +187,10 @@ def to_dict(spec):
     for nm in spec.get('names', []):
         d[nm['name']] = '=' + (spec['names'][nm['alias']]['name'] if 'alias' in nm else rect_id_raw(spec, nm['rect'], ab=True))
     for fn in spec.get('fnames', []):
-        d[fn['name']] = '=' + render(spec, fn['f'], (fn['book'], -1, 0, 0), True, absolute=True)
+        if fn.get('raw'):
+            d[fn['name']] = fn['f'][1]  # a constant name given as a plain value, not as the formula "=0.25"
+        else:
+            d[fn['name']] = '=' + render(spec, fn['f'], (fn['book'], -1, 0, 0), True, absolute=True)
     return d
 
 
